@@ -43,6 +43,7 @@ class FnSpec:
         self.stub = False
         self.tags = []
         self.attrs = []
+        self.guards = []       # (names, clause id, bound expression)  -- R20 guarded calls
 
 
 class ItemSpec:
@@ -210,9 +211,16 @@ def parse_vspec(path):
                 cur_loop = cur_fn.loops.setdefault(int(rest), {"binder": None, "clauses": []})
             elif d == "@endloop":
                 cur_loop = None
+            elif d == "@guard":
+                # R20: every call of one of the named (reserving) functions in this fn gets its argument
+                # bound to a local and an obligation `argument <= BOUND` in front of the call
+                parts = [x.strip() for x in rest.split("::=")]
+                if len(parts) != 3:
+                    raise RsxError(f"{path}:{i+1}: @guard NAMES ::= CLAUSE ::= BOUND")
+                cur_fn.guards.append((parts[0].split(), parts[1], parts[2]))
             elif d == "@hint":
                 m = re.match(r"(after|before)\s+`(.*)`\s*$", rest)
-                m2 = re.match(r"(loopstart|loopend|bodystart)\s*(\d*)\s*$", rest)
+                m2 = re.match(r"(loopstart|loopend|loopbefore|bodystart)\s*(\d*)\s*$", rest)
                 if not m and not m2:
                     raise RsxError(f"{path}:{i+1}: bad @hint")
                 b, i = block(i + 1)
@@ -680,10 +688,17 @@ def build_item(u, spec, twin, gen):
                 if where == "bodystart":
                     ed.add(f.body_s + 1, f.body_s + 1, "\n" + htext + "\n", "S-hint", prio=3)
                     continue
-                if where in ("loopstart", "loopend"):
+                if where in ("loopstart", "loopend", "loopbefore"):
                     if anchor > len(lps):
                         raise RsxError(f"{spec.header}::{f.name}: loop #{anchor} not found for @hint (function has {len(lps)} loops)")
                     _kw_tok, brace_off, _kw = lps[anchor - 1]
+                    if where == "loopbefore":
+                        # in front of the loop statement (its keyword, or its label when it has one)
+                        kt = _kw_tok
+                        if itoks[kt - 1].kind == "p" and itoks[kt - 1].text == ":" and itoks[kt - 2].kind == "life":
+                            kt -= 2
+                        ed.add(itoks[kt].s, itoks[kt].s, htext + "\n        ", "S-hint", prio=-3)
+                        continue
                     if where == "loopstart":
                         ed.add(brace_off + 1, brace_off + 1, "\n" + htext + "\n", "S-hint", prio=3)
                     else:
@@ -701,6 +716,23 @@ def build_item(u, spec, twin, gen):
                     ed.add(pos, pos, "\n" + htext + "\n", "S-hint", prio=3)
                 else:
                     ed.add(pos, pos, htext + "\n", "S-hint", prio=-3)
+            for (names, clause, bound) in fs.guards:
+                # R20 guarded calls: `X.name(ARG)` / `P::name(ARG)`  =>  `X.name({ let r20_n: usize = ARG;
+                # assert(r20_n <= BOUND); r20_n })`. The match is on the callee's NAME, so editing the argument
+                # cannot lose it, a reserving call that is added is guarded too, and one that is removed
+                # leaves no obligation (no reservation, nothing to bound).
+                for k in body_toks:
+                    t = itoks[k]
+                    if t.kind == "id" and t.text in names and itoks[k + 1].kind == "p" and itoks[k + 1].text == "(" \
+                            and itoks[k - 1].kind == "p" and itoks[k - 1].text in (".", ":"):
+                        cl = rsx.match_close(itoks, k + 1)
+                        if cl == k + 2:
+                            continue
+                        if any(itoks[q].kind == "p" and itoks[q].text == "," and rsx_depth0(itoks, k + 1, q) for q in range(k + 2, cl)):
+                            raise RsxError(f"{spec.header}::{f.name}: guarded call `{t.text}` has more than one argument")
+                        ed.add(itoks[k + 1].e, itoks[k + 1].e, "{ let r20_n: usize = ", "R20", prio=4)
+                        ed.add(itoks[cl].s, itoks[cl].s, f";\n            assert(r20_n <= {bound}); /*@cl {clause}|obligation*/\n            r20_n }}", "R20", prio=-4)
+                        per_fn_rules.setdefault(id(f), {})["R20"] = per_fn_rules.get(id(f), {}).get("R20", 0) + 1
         elif fs and fs.loops and not f.has_body:
             raise RsxError(f"{f.name}: loop contract on a bodiless fn")
         rules_here = per_fn_rules.get(id(f), {})
@@ -720,6 +752,18 @@ def build_item(u, spec, twin, gen):
     gen.items.append(dict(file=spec.path, header=spec.header, src_line=src_line,
                           rules={k: v for k, v in red.counts().items()}))
     return f"// @item {spec.path} :: {spec.header} (source line {src_line})\n" + new.strip("\n") + "\n"
+
+
+def rsx_depth0(itoks, open_k, q):
+    """True when token q sits directly inside the bracket opened at open_k (not in a nested one)."""
+    d = 0
+    for j in range(open_k + 1, q):
+        t = itoks[j]
+        if t.kind == "p" and t.text in rsx.OPEN:
+            d += 1
+        elif t.kind == "p" and t.text in rsx.CLOSE:
+            d -= 1
+    return d == 0
 
 
 def generate(unit_path, twin=False):
